@@ -19,7 +19,7 @@ func c09Schema() *model.Schema {
 	leaf := func(n string) *model.FieldDef { return &model.FieldDef{Name: n, Type: model.Named("Int")} }
 	obj := func(n, t string) *model.FieldDef { return &model.FieldDef{Name: n, Type: model.Named(t)} }
 	s.Types = []*model.TypeDef{
-		{Kind: model.Object, Name: "Query", Fields: []*model.FieldDef{leaf("tgt"), leaf("sib"), obj("sub", "Leafy"), obj("down", "A")}},
+		{Kind: model.Object, Name: "Query", Fields: []*model.FieldDef{leaf("tgt"), leaf("sib"), obj("sub", "Leafy"), obj("down", "A"), {Name: "many", Type: model.ListOf(model.Named("B"))}}},
 		{Kind: model.Object, Name: "A", Fields: []*model.FieldDef{leaf("tgt"), leaf("sib"), obj("sub", "Leafy"), obj("down", "B")}},
 		{Kind: model.Object, Name: "B", Fields: []*model.FieldDef{leaf("tgt"), leaf("sib"), obj("sub", "Leafy")}},
 		{Kind: model.Object, Name: "Leafy", Fields: []*model.FieldDef{leaf("inner")}},
@@ -37,9 +37,10 @@ func c09Graph() *model.Graph {
 	root := mk("__root", map[string]interface{}{})
 	g.Root = root
 	l := mk("Leafy", map[string]interface{}{"inner": 7})
+	b2 := mk("B", map[string]interface{}{"tgt": 4, "sib": 40, "sub": l}) // (created first: the call-log monitor finds q, a, b from the end)
 	b := mk("B", map[string]interface{}{"tgt": 3, "sib": 30, "sub": l})
 	a := mk("A", map[string]interface{}{"tgt": 2, "sib": 20, "sub": l, "down": b})
-	q := mk("Query", map[string]interface{}{"tgt": 1, "sib": 10, "sub": l, "down": a})
+	q := mk("Query", map[string]interface{}{"tgt": 1, "sib": 10, "sub": l, "down": a, "many": model.VList{b, b2, b}})
 	root.F["query"] = q
 	return g
 }
@@ -55,7 +56,7 @@ func runC09(c *run.Ctx) {
 	c.Exhaustive = true
 	s := c09Schema()
 	sdl := s.SDL(model.SDLOpts{})
-	kinds := []string{"field-leaf", "field-composite", "inline", "spread", "meta-typename", "meta-schema", "meta-type", "meta-typename-alone", "dup-leaf-first", "dup-leaf-second"}
+	kinds := []string{"field-leaf", "field-composite", "inline", "spread", "meta-typename", "meta-schema", "meta-type", "meta-typename-alone", "dup-leaf-first", "dup-leaf-second", "spread-twice-first", "spread-twice-second"}
 	types := []string{"Query", "A", "B"}
 	total := 0
 	for _, bk := range []string{"iface", "any", "reflect"} {
@@ -135,6 +136,11 @@ func runC09(c *run.Ctx) {
 							case "meta-typename", "meta-typename-alone":
 								key = "__typename"
 								target = &model.Field{Name: "__typename", Dirs: dirs}
+							case "spread-twice-first", "spread-twice-second":
+								// the same named fragment spread twice in one selection set, one spread with the directives and one bare
+								doc.Frags = append(doc.Frags, &model.FragDef{Name: "F", Cond: tname, Sels: []model.Sel{&model.Field{Name: "tgt"}}})
+								target = &model.Spread{Name: "F", Dirs: dirs}
+								present = true
 							case "dup-leaf-first", "dup-leaf-second":
 								// the same leaf twice under one response key, once with the directives and once bare: the bare
 								// occurrence is included whatever the directives of the other one say
@@ -160,6 +166,10 @@ func runC09(c *run.Ctx) {
 								sels = []model.Sel{&model.Field{Name: "sib"}, target, &model.Field{Name: "tgt"}}
 							case "dup-leaf-second":
 								sels = []model.Sel{&model.Field{Name: "tgt"}, &model.Field{Name: "sib"}, target}
+							case "spread-twice-first":
+								sels = []model.Sel{target, &model.Field{Name: "sib"}, &model.Spread{Name: "F"}}
+							case "spread-twice-second":
+								sels = []model.Sel{&model.Spread{Name: "F"}, &model.Field{Name: "sib"}, target}
 							}
 							for d := depth; d > 0; d-- {
 								sels = []model.Sel{&model.Field{Name: "down", Sels: sels}}
@@ -211,7 +221,7 @@ func runC09(c *run.Ctx) {
 								rep("errors on a valid request")
 								continue
 							}
-							if bk != "reflect" && !strings.HasPrefix(kind, "meta-") && !strings.HasPrefix(kind, "dup-leaf") {
+							if bk != "reflect" && !strings.HasPrefix(kind, "meta-") && !strings.HasPrefix(kind, "dup-leaf") && !strings.HasPrefix(kind, "spread-twice") {
 								called := false
 								for _, cl := range out.Calls {
 									if cl.Key.Field == key && cl.Key.Node == g.Nodes[len(g.Nodes)-1-depth].ID {
@@ -253,7 +263,7 @@ func runC09(c *run.Ctx) {
 // of one document that share a fragment but declare different defaults. Each call is judged by the truth table alone:
 // inclusion must depend on the variables of that call only.
 func c09Histories(c *run.Ctx, s *model.Schema, sdl string) int {
-	kinds := []string{"field-leaf", "field-composite", "inline", "spread", "meta-typename"}
+	kinds := []string{"field-leaf", "field-composite", "inline", "spread", "meta-typename", "field-leaf-in-list", "inline-in-list"}
 	// a variable is either required (no default) or has a default of true/false
 	type vkind struct {
 		def    bool
@@ -293,8 +303,9 @@ func c09Histories(c *run.Ctx, s *model.Schema, sdl string) int {
 							doc := &model.Doc{}
 							var target model.Sel
 							key := "tgt"
+							inList := strings.HasSuffix(kind, "-in-list")
 							switch kind {
-							case "field-leaf":
+							case "field-leaf", "field-leaf-in-list":
 								target = &model.Field{Name: "tgt", Dirs: dirs}
 							case "field-composite":
 								key = "sub"
@@ -302,6 +313,8 @@ func c09Histories(c *run.Ctx, s *model.Schema, sdl string) int {
 							case "meta-typename":
 								key = "__typename"
 								target = &model.Field{Name: "__typename", Dirs: dirs}
+							case "inline-in-list":
+								target = &model.Inline{Cond: "B", Dirs: dirs, Sels: []model.Sel{&model.Field{Name: "tgt"}}}
 							case "inline":
 								target = &model.Inline{Cond: "Query", Dirs: dirs, Sels: []model.Sel{&model.Field{Name: "tgt"}}}
 							case "spread":
@@ -309,6 +322,10 @@ func c09Histories(c *run.Ctx, s *model.Schema, sdl string) int {
 								target = &model.Spread{Name: "F", Dirs: dirs}
 							}
 							sels := []model.Sel{&model.Field{Name: "sib"}, target}
+							if inList {
+								// the directive-carrying selection is a NON-LAST direct selection of a list-typed field
+								sels = []model.Sel{&model.Field{Name: "sib"}, &model.Field{Name: "many", Sels: []model.Sel{target, &model.Field{Name: "sib"}, &model.Field{Alias: "last", Name: "tgt"}}}}
+							}
 							ops := []string{"Q"}
 							if shared == 1 {
 								// the directive-carrying selection sits in a fragment shared by two operations whose defaults are opposite
@@ -382,6 +399,23 @@ func c09Histories(c *run.Ctx, s *model.Schema, sdl string) int {
 								m, _ := out.Data.(map[string]interface{})
 								_, has := m[key]
 								_, sib := m["sib"]
+								if inList {
+									// every element of the list must agree with the truth table and keep its other selections
+									l, _ := m["many"].([]interface{})
+									has, sib = present, len(l) == 3
+									for _, e := range l {
+										em, _ := e.(map[string]interface{})
+										if _, h := em[key]; h != present {
+											has = !present
+										}
+										if _, s1 := em["sib"]; !s1 {
+											sib = false
+										}
+										if _, s2 := em["last"]; !s2 {
+											sib = false
+										}
+									}
+								}
 								diag := ""
 								switch {
 								case out.Panic != nil:
@@ -400,7 +434,7 @@ func c09Histories(c *run.Ctx, s *model.Schema, sdl string) int {
 								if diag == "" && bk != "reflect" && kind != "meta-typename" {
 									called := false
 									for _, k := range out.Calls {
-										if k.Key.Field == key {
+										if k.Key.Key == key { // by response key: `last: tgt` is another selection of the same field
 											called = true
 										}
 									}
